@@ -71,7 +71,7 @@ theorem resRel_step {α : Type _} {lib : Lib} {h : NNet} {z : α} {neg : α → 
     (sh : Shape) (dn : Nat) (map : Array (Option Nat)) (nxt : NNet) (ct : SubstCertD cur d impl sh dn map nxt) :
     ResRel lib h z neg prim nxt (fun x => D x ∨ x = d) := by
   have hnode := r.node d hd hnd
-  refine ⟨ct.wf', Nat.le_trans r.nsize ct.nsize, ?_, ct.io'.trans r.io, ?_, ?_, ?_, ?_, ?_⟩
+  refine ⟨SubstCertD.wf' ct, Nat.le_trans r.nsize ct.nsize, ?_, ct.io'.trans r.io, ?_, ?_, ?_, ?_, ?_⟩
   · rw [ct.lsize]; have := r.lsize; omega
   · intro d' hd' hn
     have h1 : ¬ D d' := fun x => hn (Or.inl x)
